@@ -15,31 +15,36 @@ Chunk == 2000
 
 OptsOf(ob) == [rfc20 |-> (ob % 2) = 1, f5322 |-> ((ob \div 2) % 2) = 1, us |-> ((ob \div 4) % 2) = 1]
 
-LocalOk(ev) ==
+(* each checker returns the set of clauses the event fails (empty = accepted) *)
+Fails(name, cond) == IF cond THEN {} ELSE {name}
+
+LocalWhy(ev) ==
   LET o == OptsOf(ev.o)  s == ev.in  m == ev.mode  rc == ev.rc IN
   IF Len(s) <= 160
   THEN LET e == LocalExp(o, m, s) IN
-       /\ rc <= 0
-       /\ (rc = 0 => e # 0)
-       /\ (rc < 0 => e # 1 /\ LTruthFull(o, m, 0 - rc, s))
+       Fails("range", rc <= 0) \cup
+       Fails("decision", (rc = 0 => e # 0) /\ (rc < 0 => e # 1)) \cup
+       Fails("truth", rc < 0 => LTruthFull(o, m, 0 - rc, s))
   ELSE \* long inputs: layer P's recursive definition is replaced by the fold machine
-       /\ rc <= 0
-       /\ (rc = 0) = (LocalRc(o, m, s) = 0)
-       /\ (rc < 0 => LTruth(o, m, 0 - rc, s))
+       Fails("range", rc <= 0) \cup
+       Fails("decision", (rc = 0) = (LocalRc(o, m, s) = 0)) \cup
+       Fails("truth", rc < 0 => LTruth(o, m, 0 - rc, s))
 
-HostOk(ev) ==
+HostWhy(ev) ==
   LET o == OptsOf(ev.o)  d == ev.in  rc == ev.rc IN
-  /\ rc <= 0
-  /\ (rc = 0) = IsHostname(o, d)
-  /\ (rc < 0 => HTruthFull(o, 0 - rc, d))
+  Fails("range", rc <= 0) \cup
+  Fails("decision", (rc = 0) = IsHostname(o, d)) \cup
+  Fails("truth", rc < 0 => HTruthFull(o, 0 - rc, d))
 
-LiteralOk(ev) ==
+LiteralWhy(ev) ==
   LET d == ev.in  rc == ev.rc  e == LiteralExp(d) IN
-  /\ rc <= 0 /\ (rc = 0 => e # 0) /\ (rc < 0 => e # 1 /\ ITruth(0 - rc, d))
+  Fails("range", rc <= 0) \cup
+  Fails("decision", (rc = 0 => e # 0) /\ (rc < 0 => e # 1)) \cup
+  Fails("truth", rc < 0 => ITruth(0 - rc, d))
 
-(* whole-address event: truth of the reported code (C15) and, in mode 6531, the outcome given the    *)
-(* converter's recorded answer cc / co (C04 for A-labels, C07, C10, C19)                                *)
-EmailOk(ev) ==
+(* whole-address event: what layer P pins (decision, class, flag), truth of the reported code (C15) and, in   *)
+(* mode 6531, the outcome given the converter's recorded answer cc / co (C04 for A-labels, C07, C10, C19)      *)
+EmailWhy(ev) ==
   LET o == OptsOf(ev.o)  m == ev.mode  tld == (ev.tld = 1)  s == ev.in  rc == ev.rc  fl == ev.fl
       at == AtPos(s)  n == Len(s)
       split == at >= 1 /\ at < n
@@ -50,9 +55,14 @@ EmailOk(ev) ==
       Dx == IF m = RFC6531 /\ hasconv /\ conv.code = 0 THEN conv.out ELSE D      \* what the host-name rules see
       code == 0 - rc
       le == IF split /\ Len(L) <= 64 THEN LocalExp(o, m, L) ELSE 0
+      p == EmailP(o, m, tld, s)
   IN
-  /\ rc <= 9 /\ fl \in {0, 1, 2, 4} /\ (rc >= 0 => fl # 0)
-  /\ (rc < 0 =>
+  Fails("record", rc <= 9 /\ fl \in {0, 1, 2, 4} /\ (rc >= 0 => fl # 0) /\ (~tld => rc <= 0)) \cup
+  Fails("decision", /\ (p.exp = 1 => rc >= 0) /\ (p.exp = 0 => rc < 0)
+                    /\ (p.exp = 3 /\ rc # 0 - E_IDN_ERROR => (rc >= 0) = (p.erc = NOPIN \/ p.erc >= 0))) \cup
+  Fails("class", p.exp \in {0, 1} /\ p.erc # NOPIN => rc = p.erc) \cup
+  Fails("flag", (p.exp \in {0, 1} /\ p.eflag # -1 => fl = p.eflag) /\ (rc = 0 /\ split /\ D[1] # LBR => fl = 4)) \cup
+  Fails("truth", rc < 0 =>
         CASE code = E_EMAIL_EMPTY -> n = 0
           [] code = E_DOMAIN_EMPTY -> ~split \/ Len(D) = 0
           [] code = E_LPART_TOO_LONG -> at - 1 > 64
@@ -62,23 +72,22 @@ EmailOk(ev) ==
           [] code \in 24..25 -> split /\ D[1] = LBR /\ ITruth(code, D)
           [] code = E_TLD_INVALID -> split /\ tld /\ TldClassOfLabel(LastLabel(Dx)) < 0
           [] code = E_IDN_ERROR -> m = RFC6531 /\ split /\ D[1] # LBR /\ (hasconv => conv.code # 0 /\ ev.idn = conv.code) /\ fl = 0
-          [] OTHER -> FALSE)
-  /\ (rc > 0 => split /\ tld /\ D[1] # LBR /\ (HasRoot(Dx) \/ rc = TldClassP(Dx)))
-  /\ (rc = 0 /\ split /\ D[1] # LBR => ~tld /\ fl = 4)
-  /\ (m = RFC6531 /\ hasconv /\ le = 1 =>
+          [] OTHER -> FALSE) \cup
+  Fails("tldclass", rc > 0 => split /\ tld /\ D[1] # LBR /\ (HasRoot(Dx) \/ rc = TldClassP(Dx))) \cup
+  Fails("idn", m = RFC6531 /\ hasconv /\ le = 1 =>
         IF conv.code # 0 THEN rc = 0 - E_IDN_ERROR
         ELSE /\ (rc >= 0) = (IsHostname(o, Dx) /\ (tld /\ ~HasRoot(Dx) => TldClassP(Dx) > 0) /\ (tld /\ HasRoot(Dx) => rc > 0))
              /\ (rc >= 0 /\ tld /\ ~HasRoot(Dx) => rc = TldClassP(Dx)))
 
-EventOk(ev) ==
-  CASE ev.e = "local" -> LocalOk(ev)
-    [] ev.e = "host" -> HostOk(ev)
-    [] ev.e = "literal" -> LiteralOk(ev)
-    [] ev.e = "email" -> EmailOk(ev)
-    [] ev.e \in {"ipv4", "ipv6", "ipaddr", "policy"} -> TRUE     \* bare validators: drift is recorded, nothing is pinned
-    [] OTHER -> FALSE
+Why(ev) ==
+  CASE ev.e = "local" -> LocalWhy(ev)
+    [] ev.e = "host" -> HostWhy(ev)
+    [] ev.e = "literal" -> LiteralWhy(ev)
+    [] ev.e = "email" -> EmailWhy(ev)
+    [] ev.e \in {"ipv4", "ipv6", "ipaddr", "policy", "hist"} -> {}     \* drift records: nothing is pinned
+    [] OTHER -> {"unknown event"}
 
 Init == l \in {i \in 1..N : i % Chunk = 1} \cup (IF N = 0 THEN {0} ELSE {})
 Next == l # 0 /\ l < N /\ l % Chunk # 0 /\ l' = l + 1
-Ok   == l = 0 \/ EventOk(TraceLog[l]) \/ PrintT(<<"BAD", l>>)
+Ok   == l = 0 \/ Why(TraceLog[l]) = {} \/ PrintT(<<"BAD", l, Why(TraceLog[l])>>)
 =============================================================================
